@@ -107,6 +107,10 @@ where
     pub active_sequences: ArrayDeque<SequenceState<'a, T>, 4, arraydeque::behavior::Wrapping>,
     pub action_queue: ActionQueue<'a, T>,
     pub rpt_action: Option<&'a Action<'a, T>>,
+    /// A repeated action put actions into the action queue, which have not all run yet.
+    /// Until they have, `Repeat` does nothing: the repeated action could otherwise repeat itself
+    /// through the queue, one tick at a time, without end.
+    rpt_queued_actions_pending: bool,
     pub historical_keys: History<KeyCode>,
     pub historical_inputs: History<KCoord>,
     pub quick_tap_hold_timeout: bool,
@@ -1091,6 +1095,7 @@ impl<'a, const C: usize, const R: usize, T: 'a + Copy + std::fmt::Debug> Layout<
             active_sequences: ArrayDeque::new(),
             action_queue: ArrayDeque::new(),
             rpt_action: None,
+            rpt_queued_actions_pending: false,
             historical_keys: History::new(),
             historical_inputs: History::new(),
             rpt_multikey_key_buffer: unsafe { MultiKeyBuffer::new() },
@@ -1299,6 +1304,7 @@ impl<'a, const C: usize, const R: usize, T: 'a + Copy + std::fmt::Debug> Layout<
                 &mut self.trans_resolution_layer_order().into_iter().skip(1),
             );
         }
+        self.rpt_queued_actions_pending = false;
         self.queue.iter_mut().for_each(Queued::tick_qd);
         self.last_press_tracker.tick_lpt();
         if let Some(ref mut tde) = self.tap_dance_eager {
@@ -1676,8 +1682,17 @@ impl<'a, const C: usize, const R: usize, T: 'a + Copy + std::fmt::Debug> Layout<
                 // The action to repeat is taken out while it runs: an action that contains a
                 // repeat itself, e.g. `(multi rpt-any b)`, would otherwise run itself again
                 // without end.
+                //
+                // An action such as `(multi (switch () rpt-any break))` runs its inner repeat a tick
+                // later, through the action queue, when the action has been put back. The repeat
+                // therefore does nothing while actions queued by a repeated action are pending.
+                if self.rpt_queued_actions_pending {
+                    return CustomEvent::NoEvent;
+                }
                 if let Some(ac) = self.rpt_action.take() {
+                    let queued_before = self.action_queue.len();
                     self.do_action(ac, coord, delay, is_oneshot, &mut std::iter::empty());
+                    self.rpt_queued_actions_pending = self.action_queue.len() != queued_before;
                     if self.rpt_action.is_none() {
                         self.rpt_action = Some(ac);
                     }
